@@ -90,6 +90,14 @@ fn cs(t: u64, n: u64) -> (u64, u64) {
 }
 
 impl Rhs {
+    /// labels of the data symbols of the goal's own chunk (for the taint query); None when the
+    /// goal is not of the form "output bin of one chunk"
+    pub fn own_labels(&self) -> Option<Vec<String>> {
+        match *self {
+            Rhs::Dft { n, base, .. } => Some((0..n).flat_map(|j| vec![format!("x{}.re", base + j), format!("x{}.im", base + j)]).collect()),
+            _ => None,
+        }
+    }
     /// (re, im) parts as affine forms over F_p. `perturb` is the vacuity twin: use the root omega^2.
     pub fn lin(&self, perturb: bool) -> (Lin, Lin) {
         let p = with(|c| c.p);
